@@ -45,6 +45,13 @@ static std::string PathStr(const PathRef& p)
 	return s;
 }
 
+// skipped values come in every size class (str8/str16, bin8/bin16 headers with length bytes on both sides of 0x80)
+static std::string Padded(Source& s, const char* head)
+{
+	static const uint32_t pads[] = { 0, 0, 0, 0, 29, 30, 125, 126, 127, 150, 253, 254, 300 };
+	return std::string(head) + std::string(s.pick(sim::L_FAULT, pads), 'p');
+}
+
 // Builds a replacement that is a definite offence for a target of kind `target` in this archive; returns false if none
 static bool MakeOffence(Source& s, int archive, K target, DynNode& repl, std::string& name, bool& mayLoad)
 {
@@ -64,9 +71,9 @@ static bool MakeOffence(Source& s, int archive, K target, DynNode& repl, std::st
 	const int o = opts[s.draw(sim::L_FAULT, static_cast<uint32_t>(opts.size()))];
 	switch (o)
 	{
-	case 0: repl = DynNode(K::Str); repl.s = "x!"; name = "str"; break;
-	case 1: repl = DynNode(K::Arr); repl.items.emplace_back(K::Str); repl.items[0].s = "e!"; repl.items.emplace_back(K::Str); repl.items[1].s = "f!"; name = "arr"; break;
-	case 2: { repl = DynNode(K::Obj); Key k; k.s = "q0"; repl.keys.push_back(k); repl.items.emplace_back(K::Str); repl.items[0].s = "g!"; name = "obj"; break; }
+	case 0: repl = DynNode(K::Str); repl.s = Padded(s, "x!"); name = "str"; break;
+	case 1: repl = DynNode(K::Arr); repl.items.emplace_back(K::Str); repl.items[0].s = Padded(s, "e!"); repl.items.emplace_back(K::Str); repl.items[1].s = "f!"; name = "arr"; break;
+	case 2: { repl = DynNode(K::Obj); Key k; k.s = "q0"; repl.keys.push_back(k); repl.items.emplace_back(K::Str); repl.items[0].s = Padded(s, "g!"); name = "obj"; break; }
 	case 3: repl = DynNode(K::Null); name = "null"; break;
 	case 4: repl = DynNode(K::F64); repl.f64 = 1.5; name = "float"; break;
 	case 5:
@@ -84,7 +91,7 @@ static bool MakeOffence(Source& s, int archive, K target, DynNode& repl, std::st
 		default: return false;
 		}
 		break;
-	case 6: repl = DynNode(K::Bin); repl.bin = { 1, 2, 3 }; name = "bin"; break;
+	case 6: { repl = DynNode(K::Bin); const std::string b = Padded(s, "\x01\x02\x03"); repl.bin.assign(b.begin(), b.end()); name = "bin"; break; }
 	case 7: repl = DynNode(K::I32); repl.i32 = 7; name = "int"; break;
 	case 9:
 		// before 1970 (MsgPack: timestamp 96 = ext 8) or after it (fixext)
